@@ -9,7 +9,7 @@ MINIMISE_S = 8.0
 RULES = {
     "INITIAL": "every accepted subscription is followed by one datagram to its endpoint with one notification per event (current values) within the resolver latency bound",
     "ROUND-SET": "every notification datagram belongs to an initial, an explicit or (for groups with an interval) a cyclic round; an explicit round addresses exactly once every endpoint subscribed throughout [trigger, trigger + resolver bound], never an endpoint that is not subscribed in that span, and nothing when the group has no subscriber at the trigger; a group with an interval keeps its rounds going (an endpoint subscribed for more than two intervals plus latency is served)",
-    "CONTENT": "service id, method 0x8000|event, interface version = major version, NOTIFICATION, payload = a value the event had between trigger and transmission",
+    "CONTENT": "service id, method 0x8000|event, interface version = major version, NOTIFICATION, payload = the value the event has in the instant of the transmission (not one read before the address lookup)",
     "SESSION-PER-DEST": "per destination address the notifications carry session ids 1, 2, ... (0xFFFF -> 1, never 0)",
     "REFUSE": "a subscription naming other than exactly one endpoint, or an unknown eventgroup, is refused; one with exactly one endpoint for a registered eventgroup is accepted",
 }
@@ -107,6 +107,8 @@ def gen(seed, idx, tier):
             ev = r.choice([1, 2, 16])
             # the empty payload is a legal value (a trigger event)
             ops.append({"k": "call", "t": t, "f": "set_value", "a": [1 if ev < 16 else 2, ev, "%04x" % val if r.random() < 0.8 else ""]})
+            if r.random() < 0.3:
+                ops[-1]["defer"] = r.randint(1, 4)  # a few loop iterations into whatever that instant started
         elif k < 0.97:
             gg = r.choice([1, 1, 1, 2])
             evs = r.choice([[1], [2], [1, 2], [2, 1], []]) if gg == 1 else r.choice([[16], []])
